@@ -121,6 +121,11 @@ def pCell : P DCell := fun ts => match ts with
     | some (m, r) => (pInt r).map (fun (e, r) => (.num m e, r))
     | none => none
   | "x" :: r => (pStr r).map (fun (s, r) => (.bad s, r))
+  | "l" :: r => match pStr r with
+    | some (s, r) => match pInt r with
+      | some (m, r) => (pInt r).map (fun (e, r) => (.lit s m e, r))
+      | none => none
+    | none => none
   | _ => none
 
 def pContent : P LasContent := fun ts => do
